@@ -1,7 +1,8 @@
 """C07 — TypeVar binding: generated modules (a generic @pedantic_class class, a class with __init__, a two-parameter class, a
 non-generic twin, a directly decorated twin, plain functions, static and class methods, all with the same generated
-signatures) are driven through call histories; the per-step outcome class is compared with the Lean model (correspondence)
-and with the Lean specification (property)."""
+signatures, and methods whose generated bodies call other checked methods / functions before they return) are driven through call
+histories of call trees; the outcome class of every call made is compared with the Lean model (correspondence) and with the Lean
+specification (property)."""
 import os, sys, json, hashlib, itertools, tempfile, shutil, importlib.util, io, contextlib
 
 RULE = ('signatures: a fixed catalogue (T, method-level S, constrained TC/TCP, bound TB/TBI, forward-ref bound TF, co/contravariant, '
@@ -15,7 +16,13 @@ RULE = ('signatures: a fixed catalogue (T, method-level S, constrained TC/TCP, b
         ' hand-picked values for the order-sensitive parts of _check_union (split of bound / '
         'unbound TypeVars computed at entry, every non-TypeVar member evaluated) on eight store kinds. Seeded: histories of 1..12 calls over 1..3 instances (Box[X], BoxI[X](a=v) '
         'with a T-typed __init__, Pair[X, Y], unparametrised, non-generic, directly decorated, plain / static / class methods), the '
-        'constructor-scan stream. Every instance is created in generated module source. non-trivial = some step checks a value '
+        'constructor-scan stream. NESTED CALLS: methods / functions whose generated body calls other checked methods / functions before it returns '
+        '(`self.<m>(...)`, another instance, a plain @pedantic function, a static / class method; the body catches and journals what the nested call '
+        'raises), to depth 4: a directed family outer kind (9 store kinds) x outer signature (method-level S / class-level T in parameters and result, '
+        'Optional, List, defaults, no parameter at all) x 22 bodies x values that agree / clash with the outer bindings (quick: a seeded 1/12 slice), and '
+        'seeded histories of call trees instantiated from a pool of generated bodies (1..3 nested calls per body, depth <= 4, over 1..4 instances); '
+        'the outermost call AND every journalled nested call are compared with the model (call tree), the specification of that call, and the same call '
+        'made alone with an empty body on a fresh instance. Every instance is created in generated module source. non-trivial = some step checks a value '
         'against a TypeVar')
 EXHAUSTIVE = {'quick': False, 'thorough': False}
 ASSUMPTIONS = ['annotations and X come from the modelled vocabulary: classes without __annotations__ tricks (no NamedTuple values), Any, TypeVars '
@@ -23,7 +30,9 @@ ASSUMPTIONS = ['annotations and X come from the modelled vocabulary: classes wit
                'unions have >= 2 distinct members and are not nested directly (typing flattens them)',
                '__init__ is outside the claim (CPython sets __orig_class__ after __init__ returns); what it leaves in the per-instance store is modelled',
                'unparametrised instances of a generic class, and Type[T] positions (the code never compares the class object with T), are modelled and compared but not claimed',
-               'keyword calls only; the values are checked, not consumed, by the (empty) method bodies']
+               'keyword calls only; the values are checked, not consumed, by the method bodies; a body makes its nested calls in order, catches and journals whatever '
+               'they raise, and then returns the value prepared for it (the outcome of a nested call reaches its caller through the journal only)',
+               'nested calls under a root reached through the constructor-scan stream are not generated (the source scan looks at the caller of the OUTERMOST checked call)']
 TRUSTED = ['typing introspection of the generated annotations (get_type_arguments, __constraints__, __bound__, __orig_class__, __orig_bases__) is exercised, not modelled',
            'issubclass on the harness class table is sent to the model as the relation `sub`',
            'the constructor-call source scan (_assert_constructor_called_with_generics) is a flag of the generated program, modelled as "the accessor raises"']
@@ -202,26 +211,63 @@ def inst_model(d):
     return {'k': 'plain'}
 
 
+INSTANCE_KINDS = ('Box', 'BoxI', 'Pair', 'Raw', 'NG', 'Direct')
+HOWS = ('self', 'obj', 'plain', 'static', 'classm')
+
+
+def node_name(st):
+    """name of the generated function of a call: a call without nested calls uses the method of its signature (empty body); a
+    call whose body makes nested calls gets a method of its own — signature + the nested calls written out in the body"""
+    if not st.get('kids'):
+        return sig_name(st['sig'])
+    shape = [st['sig'], [[k['how'], node_name(k)] for k in st['kids']]]
+    return 'n' + hashlib.sha1(json.dumps(shape, sort_keys=True).encode()).hexdigest()[:12]
+
+
+def walk_nodes(st):
+    """the calls below a call, pre-order (the order of the journal)"""
+    for k in st.get('kids') or []:
+        yield k
+        yield from walk_nodes(k)
+
+
 def mk_case(insts, steps, origin):
-    """steps: {'i': instance index, 'sig': signature, 'vals': {param: value}, 'r': value or None, 'op': 'call'|'init'|'scan'}.
+    """steps: {'i': instance index, 'sig': signature, 'vals': {param: value}, 'r': value or None, 'op': 'call'|'init'|'scan',
+               'kids': [nested calls made by the body: the same fields + 'how': 'self'|'obj'|'plain'|'static'|'classm']}.
     A BoxI instance must be created by an 'init' step (sig INIT) before it is used; instances with 'warm' get a leading warm() call."""
     msteps, xsteps, fns = [], [], {}
     started = set()
 
-    def fn_id(i, s):
-        key = (insts[i]['cls'], sig_name(s))
+    def fn_id(i, st):
+        key = (insts[i]['cls'], node_name(st))
         return fns.setdefault(key, len(fns))
-    for st in steps:
+
+    def mstep(st, op):
         i = st['i']
-        d = insts[i]
-        if d.get('warm') and i not in started and d['cls'] in ('Box', 'Pair') and st.get('op', 'call') == 'call':
-            msteps.append({'i': i, 'f': fn_id(i, WARM), 'init': False, 'scan': False, 'checks': sig_checks(WARM, {})})
-            xsteps.append({'i': i, 'op': 'warm', 'sig': WARM, 'vals': {}, 'r': None})
-        started.add(i)
+        m = {'i': i, 'f': fn_id(i, st), 'init': op == 'init', 'scan': op == 'scan', 'checks': sig_checks(st['sig'], st['vals'], st.get('r'))}
+        if st.get('kids'):
+            for k in st['kids']:
+                c = insts[k['i']]['cls']
+                if k['how'] not in HOWS or (c in INSTANCE_KINDS) != (k['how'] in ('self', 'obj')) or (c not in INSTANCE_KINDS and c != k['how']):
+                    raise ValueError(f'nested call: how={k["how"]} on an instance of kind {c}')
+                if k['how'] == 'self' and insts[i]['cls'] in INSTANCE_KINDS and k['i'] != i:
+                    raise ValueError('nested call on self names another instance')
+            m['kids'] = [mstep(k, 'call') for k in st['kids']]
+        return m
+    for st in steps:
         op = st.get('op', 'call')
-        msteps.append({'i': i, 'f': fn_id(i, st['sig']), 'init': op == 'init', 'scan': op == 'scan',
-                       'checks': sig_checks(st['sig'], st['vals'], st.get('r'))})
-        xsteps.append({'i': i, 'op': op, 'sig': st['sig'], 'vals': st['vals'], 'r': st.get('r')})
+        for i in [st['i']] + [k['i'] for k in walk_nodes(st)]:
+            d = insts[i]
+            if d.get('warm') and i not in started and d['cls'] in ('Box', 'Pair') and op == 'call':
+                w = {'i': i, 'sig': WARM, 'vals': {}, 'r': None}
+                msteps.append(mstep(w, 'call'))
+                xsteps.append({'i': i, 'op': 'warm', 'sig': WARM, 'vals': {}, 'r': None})
+            started.add(i)
+        msteps.append(mstep(st, op))
+        x = {'i': st['i'], 'op': op, 'sig': st['sig'], 'vals': st['vals'], 'r': st.get('r')}
+        if st.get('kids'):
+            x['kids'] = st['kids']
+        xsteps.append(x)
     return {'m': 'typevars', 'c': {'env': ENV, 'insts': [inst_model(d) for d in insts], 'steps': msteps},
             'x': {'insts': insts, 'steps': xsteps, 'origin': origin}}
 
@@ -529,6 +575,135 @@ def rand_history(rng, sigs, nmax=12):
     return insts, steps
 
 
+# ---- nested calls: a method body that calls other checked methods / functions before it returns
+
+def pick_target(rng, insts, how, parent):
+    """index of the instance a nested call goes to (appended to `insts` when there is none of the wanted kind yet)"""
+    if how == 'self' and insts[parent]['cls'] in INSTANCE_KINDS:
+        return parent
+    if how in ('self', 'obj'):
+        pool = [j for j, e in enumerate(insts) if e['cls'] in INSTANCE_KINDS]
+        if not pool:
+            insts.append({'cls': 'Box', 'X': [rng.choice(XS)], 'warm': True})
+            return len(insts) - 1
+        return rng.choice(pool)
+    for j, e in enumerate(insts):
+        if e['cls'] == how:
+            return j
+    insts.append({'cls': how})
+    return len(insts) - 1
+
+
+def rand_shape(rng, sigs, lower, leaves):
+    """signature + the nested calls of the body: [(how, shape)]"""
+    kids = []
+    for _ in range(rng.choice([1, 1, 2, 2, 3])):
+        how = rng.choice(['self'] * 5 + ['obj'] * 3 + ['plain', 'plain', 'static', 'classm'])
+        kids.append((how, rng.choice(lower) if rng.random() < 0.65 else rng.choice(leaves)))
+    return {'sig': rng.choice(sigs), 'kids': kids}
+
+
+def shape_pool(rng, sigs, sizes):
+    """bodies are written out in the generated module, so the shapes come from a pool: level k calls shapes of level < k"""
+    leaves = [{'sig': s_, 'kids': []} for s_ in sigs]
+    levels, lower = [], leaves
+    for n in sizes:
+        cur = [rand_shape(rng, sigs, lower, leaves) for _ in range(n)]
+        levels.append(cur)
+        lower = cur
+    return [x for lv in levels for x in lv]
+
+
+def instantiate(rng, shape, insts, i, how=None):
+    d = insts[i]
+    st = rand_call(rng, i, shape['sig'], class_params(rng, d))
+    if how:
+        st['how'] = how
+    kids = [instantiate(rng, sub, insts, pick_target(rng, insts, h, i), h) for h, sub in shape['kids']]
+    if kids:
+        st['kids'] = kids
+    return st
+
+
+def rand_nested_history(rng, pool, leaf_sigs):
+    insts = [rand_inst(rng) for _ in range(rng.choice([1, 2, 2, 3]))]
+    steps = [{'i': i, 'sig': INIT, 'vals': {'a': rand_value(rng, 1)}, 'op': 'init'} for i, d in enumerate(insts) if d['cls'] == 'BoxI']
+    for _ in range(rng.choice([1, 1, 2, 3])):
+        i = rng.randrange(len(insts))
+        if rng.random() < 0.8:
+            steps.append(instantiate(rng, rng.choice(pool), insts, i))
+        else:
+            steps.append(rand_call(rng, i, rng.choice(leaf_sigs), class_params(rng, insts[i])))
+    return insts, steps
+
+
+def nested_directed(rng, quick):
+    """the outer call binds / re-uses a TypeVar in its parameters and in its result; in between its body calls another checked
+    function — on the same instance, on another instance, a plain function, a static / class method, to depth 2 — with values that
+    agree or clash with the outer bindings.  Every outer kind x outer signature x body x value combination (quick: a seeded slice)."""
+    cat = CATALOGUE
+    I, Sx = inst('int'), inst('str')
+    outer_sigs = ['m_Sret', 'm_ret', 'm_SS', 'm_TT', 'm_TOT', 'm_retonly', 'm_COret', 'm_LS', 'd_SS', None]     # None: no parameter at all
+    outer_vals = [I, Sx, inst('bool'), inst('C1')]
+    kinds = [{'cls': 'NG'}, {'cls': 'Box', 'X': [INT], 'warm': True}, {'cls': 'Box', 'X': [STR], 'warm': False}, {'cls': 'Pair', 'X': [STR, INT], 'warm': True},
+             {'cls': 'Direct'}, {'cls': 'Raw'}, {'cls': 'plain'}, {'cls': 'static'}, {'cls': 'classm'}]
+    others = [{'cls': 'Box', 'X': [STR], 'warm': True}, {'cls': 'NG'}, {'cls': 'Box', 'X': [INT], 'warm': True}, {'cls': 'Raw'}]
+
+    def leaf(how, name, v):
+        sg = cat[name] if name else WARM
+        vals, r = value_pair_for(sg, v, v) if name else ({}, None)
+        return (how, sg, vals, r, [])
+    bodies = []
+    for v in (I, Sx):
+        bodies += [[leaf('self', 'm_S', v)], [leaf('self', 'm_T', v)], [leaf('obj', 'm_S', v)], [leaf('plain', 'm_S', v)],
+                   [leaf('static', 'm_S', v)], [leaf('classm', 'm_T', v)], [leaf('self', 'm_int', I), leaf('self', 'm_SS', v)],
+                   [('self', cat['m_Sret'], {'a': v}, v, [leaf('self', 'm_S', Sx if v is I else I)])],          # depth 2, same instance
+                   [('obj', cat['m_ret'], {'a': v}, v, [leaf('plain', 'm_T', I), leaf('self', 'm_S', v)])],      # depth 2, other instance
+                   [('self', cat['m_SS'], {'a': v, 'b': v}, None, [('self', cat['m_Sret'], {'a': Sx}, Sx, [leaf('self', 'm_S', I)])])]]   # depth 3
+    bodies += [[leaf('self', None, None)], [leaf('obj', None, None)]]
+    out = []
+    n = 0
+    stride = 12 if quick else 1
+    off = rng.randrange(stride)
+    for name in outer_sigs:
+        for bi, body in enumerate(bodies):
+            for ki, kd in enumerate(kinds):
+                for v1 in outer_vals:
+                    for v2 in outer_vals:
+                        n += 1
+                        if (n + off) % stride:
+                            continue
+                        sg = cat[name] if name else WARM
+                        if name is None:
+                            vals, r = {}, None
+                        elif sg.get('defs'):
+                            vals, r = {'a': v1}, None
+                            if v2 is not v1:
+                                vals['b'] = v2
+                        else:
+                            vals, r = value_pair_for(sg, v1, v2)
+                        insts = [dict(kd), dict(others[(bi + ki) % len(others)])]
+
+                        def build(parent, spec):
+                            how, ksg, kvals, kr, sub = spec
+                            j = parent if (how == 'self' and insts[parent]['cls'] in INSTANCE_KINDS) else (1 if how in ('self', 'obj') else None)
+                            if j is None:
+                                j = next((x for x, e in enumerate(insts) if e['cls'] == how), None)
+                                if j is None:
+                                    insts.append({'cls': how})
+                                    j = len(insts) - 1
+                            st = {'i': j, 'how': how, 'sig': ksg, 'vals': dict(kvals), 'r': kr}
+                            ks = [build(j, x) for x in sub]
+                            if ks:
+                                st['kids'] = ks
+                            return st
+                        root = {'i': 0, 'sig': sg, 'vals': vals, 'r': r, 'kids': [build(0, x) for x in body]}
+                        # the same outer call once more afterwards: what the nested calls left behind must not matter either
+                        again = {'i': 0, 'sig': sg, 'vals': dict(vals), 'r': r}
+                        out.append(mk_case(insts, [root, again] if n % 3 == 0 else [root], 'nest'))
+    return out
+
+
 # ------------------------------------------------------------------ corpus of recorded regions (fixed ones must pass)
 
 def corpus():
@@ -555,6 +730,22 @@ def corpus():
     out.append(mk_case([{'cls': 'NG'}], [one(0, 'm_TT', {'a': inst('int'), 'b': inst('str')})], 'corpus:open:nonGenericPedanticClassResetsBindings'))
     out.append(mk_case([{'cls': 'NG'}], [one(0, 'm_ret', {'a': inst('int')}, inst('str'))], 'corpus:open:nonGenericPedanticClassResetsBindings'))
     out.append(mk_case(plain, [one(0, 'm_TOT', {'a': inst('int'), 'b': inst('str')})], 'corpus:open:mismatchInsideUnionIsTypeCheck'))
+    # nested calls (seeded change w3-C07-1: the dict of a call re-read from the instance attribute on every access).
+    # echo(value: S) -> S gets an int and returns a str, its body calls another method of the same instance in between: mismatch required
+    kid = lambda how, i, name, vals, r=None, kids=None: dict({'i': i, 'how': how, 'sig': CATALOGUE[name] if name else WARM, 'vals': vals, 'r': r},
+                                                            **({'kids': kids} if kids else {}))
+    for d in ({'cls': 'NG'}, {'cls': 'Box', 'X': [INT], 'warm': True}, {'cls': 'Pair', 'X': [STR, INT], 'warm': False}):
+        out.append(mk_case([dict(d)], [{'i': 0, 'sig': CATALOGUE['m_Sret'], 'vals': {'a': inst('int')}, 'r': inst('str'), 'kids': [kid('self', 0, None, {})]}],
+                           'corpus:nested:outerMismatchSurvivesNestedCall'))
+        # the nested call binds S to str; the outer call (int in, int out) must still be accepted
+        out.append(mk_case([dict(d)], [{'i': 0, 'sig': CATALOGUE['m_Sret'], 'vals': {'a': inst('int')}, 'r': inst('int'),
+                                        'kids': [kid('self', 0, 'm_S', {'a': inst('str')})]}], 'corpus:nested:nestedBindingStaysNested'))
+    # depth 3 over two instances and a plain function; class-level T of Box[int] next to method-level S
+    out.append(mk_case([{'cls': 'Box', 'X': [INT], 'warm': True}, {'cls': 'NG'}, {'cls': 'plain'}],
+                       [{'i': 0, 'sig': CATALOGUE['m_TS'], 'vals': {'a': inst('int'), 'b': inst('str')}, 'r': None, 'kids': [
+                           kid('obj', 1, 'm_Sret', {'a': inst('float')}, inst('float'), [kid('plain', 2, 'm_SS', {'a': inst('int'), 'b': inst('int')}),
+                                                                                        kid('obj', 0, 'm_ret', {'a': inst('int')}, inst('str'))]),
+                           kid('self', 0, 'm_S', {'a': inst('C1')})]}], 'corpus:nested:depth3'))
     return out
 
 
@@ -651,6 +842,16 @@ def cases(rng, tier):
         if d['cls'] == 'BoxI':
             d['cls'] = 'Box'; d['warm'] = True
         out.append(mk_case([d], [rand_call(rng, 0, s, class_params(rng, d))], 'single'))
+    # (8) nested calls, directed: outer kind x outer signature x body (same instance / other instance / plain / static / class method,
+    #     depth 1..3) x values that agree or clash with the outer bindings
+    out += nested_directed(rng, quick)
+    # (9) nested calls, seeded: call trees instantiated from a pool of generated bodies (depth <= 3, 1..3 nested calls per body)
+    small = [cat[n] for n in ('m_T', 'm_S', 'm_Sret', 'm_ret', 'm_SS', 'm_TT', 'm_TS', 'm_LT', 'm_OT', 'm_TOT', 'm_retonly', 'm_int', 'm_TC', 'm_TB',
+                              'm_CN', 'm_COret', 'm_UTS', 'd_SS', 'd_TT', 'd_TTret')] + [WARM] + sigs[len(cat):len(cat) + (8 if quick else 40)]
+    pool = shape_pool(rng, small, (24, 16, 8) if quick else (160, 100, 50))
+    for _ in range(1500 if quick else 60000):
+        insts, steps = rand_nested_history(rng, pool, small)
+        out.append(mk_case(insts, steps, 'nesthist'))
     return out
 
 
@@ -661,6 +862,7 @@ def search(rng, tier, near):
         insts, steps = rand_history(rng, sigs, nmax=4)
         if steps:
             out.append(mk_case(insts, steps, 'search'))
+    out += nested_directed(rng, True)
     return out
 
 
@@ -677,7 +879,9 @@ NoneType = type(None)
 '''
 
 
-def method_src(name, s, self_kw='self', deco='', indent='    '):
+def method_src(name, s, self_kw='self', deco='', indent='    ', kids=None):
+    """kids: [(how, name of the nested function)] — the body makes these calls, in order, before it returns; whatever a nested call
+    raises is caught and journalled (`_k['exc']`), `_CUR[0]` is the journal node of the call that is running"""
     defs = s.get('defs') or {}
     ps = ([self_kw] if self_kw else []) + (['r: object'] if s['ret'] is not None and defs else [])
     ps += [f'{n}: {ann_src(a)}' + (f' = {val_src(defs[n])}' if n in defs else '') for n, a in s['ps']]
@@ -689,23 +893,47 @@ def method_src(name, s, self_kw='self', deco='', indent='    '):
     else:
         head = f'def {name}({", ".join(ps)}) -> None:'
         body = 'pass'
-    return ''.join(indent + d + '\n' for d in deco.split('\n') if d) + indent + head + ' ' + body + '\n'
+    decos = ''.join(indent + d + '\n' for d in deco.split('\n') if d)
+    if not kids:
+        return decos + indent + head + ' ' + body + '\n'
+    lines = [head, '    _c = _CUR[0]']
+    for k, (how, child) in enumerate(kids):
+        target = {'self': f'self.{child}' if self_kw == 'self' else f"_k['obj'].{child}", 'obj': f"_k['obj'].{child}", 'plain': f'f_{child}',
+                  'static': f'Box.sm_{child}', 'classm': f'Box.cm_{child}'}[how]
+        lines += [f'    _k = _enter(_c, {k})', '    try:', f"        {target}(**_k['kw'])", '    except BaseException as _e:', "        _k['exc'] = _e",
+                  '    _leave(_c)']
+    lines.append('    ' + body)
+    return decos + ''.join(indent + ln + '\n' for ln in lines)
 
 
-def module_src(sigs, xsrcs, pairsrcs):
-    """sigs: {generated name: signature}; xsrcs: source texts X of the Box[X] / BoxI[X] instances; pairsrcs: 'X, Y' texts"""
-    out = [HEADER]
+NEST_HELPERS = """
+_CUR = [None]
+def _enter(c, k):
+    kid = c['kids'][k]
+    kid['ran'] = True
+    _CUR[0] = kid
+    return kid
+def _leave(c):
+    _CUR[0] = c
+"""
+
+
+def module_src(sigs, xsrcs, pairsrcs, nested=None):
+    """sigs: {generated name: signature}; xsrcs: source texts X of the Box[X] / BoxI[X] instances; pairsrcs: 'X, Y' texts;
+    nested: {generated name: (signature, [(how, name of the nested function)])} — functions whose body makes nested calls"""
+    out = [HEADER, NEST_HELPERS]
     for (n, src, _) in TVS:
         out.append(f'{n} = {src}\n')
-    methods = ''.join(method_src(n, s) for n, s in sorted(sigs.items()))
+    table = sorted([(n, s, None) for n, s in sigs.items()] + [(n, s, kids) for n, (s, kids) in (nested or {}).items()], key=lambda e: e[0])
+    methods = ''.join(method_src(n, s, kids=kids) for n, s, kids in table)
     out.append('\n@pedantic_class\nclass Box(Generic[T]):\n' + methods)
-    out.append(''.join(method_src('sm_' + n, s, self_kw='', deco='@staticmethod') for n, s in sorted(sigs.items())))
-    out.append(''.join(method_src('cm_' + n, s, self_kw='cls', deco='@classmethod') for n, s in sorted(sigs.items())))
+    out.append(''.join(method_src('sm_' + n, s, self_kw='', deco='@staticmethod', kids=kids) for n, s, kids in table))
+    out.append(''.join(method_src('cm_' + n, s, self_kw='cls', deco='@classmethod', kids=kids) for n, s, kids in table))
     out.append('\n@pedantic_class\nclass BoxI(Generic[T]):\n    def __init__(self, a: T) -> None: self.a = a\n' + methods)
     out.append('\n@pedantic_class\nclass Pair(Generic[T, S]):\n' + methods)
     out.append('\n@pedantic_class\nclass NG:\n' + methods)
-    out.append('\nclass Direct:\n' + ''.join(method_src(n, s, deco='@pedantic') for n, s in sorted(sigs.items())))
-    out.append('\n' + ''.join(method_src('f_' + n, s, self_kw='', deco='@pedantic', indent='') for n, s in sorted(sigs.items())))
+    out.append('\nclass Direct:\n' + ''.join(method_src(n, s, deco='@pedantic', kids=kids) for n, s, kids in table))
+    out.append('\n' + ''.join(method_src('f_' + n, s, self_kw='', deco='@pedantic', indent='', kids=kids) for n, s, kids in table))
     warm = sig_name(WARM)
     for k, x in enumerate(xsrcs):
         out.append(f'\ndef mk_{k}():\n    x = Box[{x}]()\n    return x\n')
@@ -725,29 +953,38 @@ def module_src(sigs, xsrcs, pairsrcs):
 _counter = [0]
 
 
-def classify(thunk):
+def classify_exc(e):
     from pedantic.exceptions import PedanticTypeVarMismatchException, PedanticTypeCheckException, PedanticException
+    if e is None:
+        return 'ok'
+    if isinstance(e, PedanticTypeVarMismatchException):
+        return 'PED:TypeVarMismatch'
+    if isinstance(e, PedanticTypeCheckException):
+        return 'PED:TypeCheck'
+    if isinstance(e, PedanticException):
+        return 'PED:' + type(e).__name__
+    return 'ESC:' + type(e).__name__
+
+
+def classify(thunk):
     try:
         with contextlib.redirect_stdout(io.StringIO()):
             thunk()
         return 'ok'
-    except PedanticTypeVarMismatchException:
-        return 'PED:TypeVarMismatch'
-    except PedanticTypeCheckException:
-        return 'PED:TypeCheck'
-    except PedanticException as e:
-        return 'PED:' + type(e).__name__
     except BaseException as e:
-        return 'ESC:' + type(e).__name__
+        return classify_exc(e)
 
 
 def _worker(cases):
     # every signature and every X of this batch goes into one generated module
-    sigs, xsrcs, pairsrcs = {sig_name(WARM): WARM}, {}, {}
+    sigs, xsrcs, pairsrcs, nested = {sig_name(WARM): WARM}, {}, {}, {}
     for c in cases:
         for st in c['x']['steps']:
             if st['op'] != 'init':
-                sigs[sig_name(st['sig'])] = st['sig']
+                for nd in [st] + list(walk_nodes(st)):
+                    sigs[sig_name(nd['sig'])] = nd['sig']        # the function with the empty body (also used for "the same call alone")
+                    if nd.get('kids'):
+                        nested[node_name(nd)] = (nd['sig'], [(k['how'], node_name(k)) for k in nd['kids']])
         for d in c['x']['insts']:
             if d['cls'] in ('Box', 'BoxI'):
                 xsrcs.setdefault(ann_src(d['X'][0]), len(xsrcs))
@@ -759,7 +996,7 @@ def _worker(cases):
     try:
         path = os.path.join(tmp, modname + '.py')
         with open(path, 'w') as f:
-            f.write(module_src(sigs, list(xsrcs), list(pairsrcs)))
+            f.write(module_src(sigs, list(xsrcs), list(pairsrcs), nested))
         spec = importlib.util.spec_from_file_location(modname, path)
         mod = importlib.util.module_from_spec(spec)
         sys.modules[modname] = mod
@@ -817,15 +1054,41 @@ def _worker(cases):
             out = classify(lambda: box.setdefault('o', make(d, init_arg, warm)))
             return box.get('o'), out
 
+        def journal_node(nd, objs):
+            return {'kw': kwargs_of(nd), 'obj': objs.get(nd['i']), 'kids': [journal_node(k, objs) for k in nd.get('kids') or []], 'ran': False, 'exc': None}
+
+        def flat(j):
+            for k in j['kids']:
+                yield k
+                yield from flat(k)
+
+        def alone(nd, d, inits):
+            """the same call — signature and values, with an EMPTY body — made alone: on a fresh instance created the same way / as a
+            plain call.  None for an unparametrised instance (its bindings are meant to persist)."""
+            if d['cls'] == 'Raw':
+                return None
+            fresh = None
+            if d['cls'] in INSTANCE_KINDS:
+                if d['cls'] == 'BoxI' and nd['i'] not in inits:
+                    return None
+                fresh, out = try_make(d, concrete(inits[nd['i']]) if d['cls'] == 'BoxI' else None, warm=True)
+                if out != 'ok':
+                    return 'CREATE:' + out
+            obj, nm = target(d, fresh, sig_name(nd['sig']))
+            kw = kwargs_of(nd)
+            return classify(lambda: mod.call(obj, nm, kw))
+
         results = []
         for c in cases:
             insts = c['x']['insts']
             objs, inits, broken = {}, {}, {}
-            outs, solo = [], []
+            outs, solo, nested_outs, nested_solo = [], [], [], []
             for st in c['x']['steps']:
                 i = st['i']
                 d = insts[i]
-                name = sig_name(st['sig'])
+                name = node_name(st)
+                nested_outs.append([])
+                nested_solo.append([])
                 if st['op'] == 'init':
                     inits[i] = st['vals']['a']
                     objs[i], out = try_make(d, concrete(st['vals']['a']))
@@ -837,29 +1100,37 @@ def _worker(cases):
                     outs.append(classify(lambda: mod.scan(name, kw)))
                     solo.append(None)
                     continue
-                if i not in objs and d['cls'] not in ('plain', 'static', 'classm'):
-                    objs[i], out = try_make(d)      # for a warmed instance the creating function performs the warm() call
-                    if out != 'ok':
-                        broken[i] = 'CREATE:' + out
+                for j in [i] + [k['i'] for k in walk_nodes(st)]:
+                    if j not in objs and insts[j]['cls'] in INSTANCE_KINDS and j not in broken:
+                        objs[j], out = try_make(insts[j])      # for a warmed instance the creating function performs the warm() call
+                        if out != 'ok':
+                            broken[j] = 'CREATE:' + out
                 if st['op'] == 'warm':
                     outs.append(broken.get(i, 'ok'))
                     solo.append(None)
                     continue
-                if i in broken:
-                    outs.append(broken[i])
+                bad = next((broken[j] for j in [i] + [k['i'] for k in walk_nodes(st)] if j in broken), None)
+                if bad:
+                    outs.append(bad)
                     solo.append(None)
+                    nested_outs[-1] = [None for _ in walk_nodes(st)]
+                    nested_solo[-1] = [None for _ in walk_nodes(st)]
                     continue
                 obj, nm = target(d, objs.get(i), name)
-                kw = kwargs_of(st)
-                outs.append(classify(lambda: mod.call(obj, nm, kw)))
-                if d['cls'] in ('Box', 'BoxI', 'Pair'):
-                    # the same call alone on a fresh instance created the same way
-                    fresh, out = try_make(d, concrete(inits[i]) if d['cls'] == 'BoxI' else None, warm=True)
-                    kw2 = kwargs_of(st)
-                    solo.append(classify(lambda: mod.call(fresh, nm, kw2)) if out == 'ok' else 'CREATE:' + out)
+                jn = journal_node(st, objs)
+                mod._CUR[0] = jn
+                outs.append(classify(lambda: mod.call(obj, nm, jn['kw'])))
+                mod._CUR[0] = None
+                if st.get('kids'):
+                    solo.append(alone(st, d, inits))
+                    for nd, j in zip(walk_nodes(st), flat(jn)):
+                        nested_outs[-1].append(classify_exc(j['exc']) if j['ran'] else None)
+                        nested_solo[-1].append(alone(nd, insts[nd['i']], inits) if j['ran'] else None)
+                elif d['cls'] in ('Box', 'BoxI', 'Pair'):
+                    solo.append(alone(st, d, inits))         # the same call alone on a fresh instance created the same way
                 else:
                     solo.append(None)
-            results.append({'outs': outs, 'solo': solo})
+            results.append({'outs': outs, 'solo': solo, 'nested': nested_outs, 'nsolo': nested_solo})
         return results
     finally:
         sys.modules.pop(modname, None)
@@ -880,52 +1151,96 @@ def run_impl(cases):
 
 # ------------------------------------------------------------------ verdict
 
-def describe(case, k):
-    st = case['x']['steps'][k]
+def describe_call(case, st):
     d = case['x']['insts'][st['i']]
     who = d['cls'] + ('[' + ', '.join(ann_src(x) for x in d['X']) + ']' if 'X' in d else '')
     s = st['sig']
     sg = '(' + ', '.join(f'{n}: {ann_src(a)}' + (f' = {val_src(s["defs"][n])}' if n in (s.get('defs') or {}) else '') for n, a in s['ps']) + ')' + (' -> ' + ann_src(s['ret']) if s['ret'] is not None else '')
-    return f'step {k} on #{st["i"]} {who}: {st["op"]} {sg} with {json.dumps(st["vals"])}' + (f' returning {json.dumps(st["r"])}' if st['r'] is not None else '')
+    txt = f'on #{st["i"]} {who}: {st.get("op", "call")} {sg} with {json.dumps(st["vals"])}' + (f' returning {json.dumps(st["r"])}' if st.get('r') is not None else '')
+    if st.get('kids'):
+        txt += ' whose body calls [' + '; '.join(f"{k['how']} #{k['i']} {node_name(k)}" for k in st['kids']) + ']'
+    return txt
+
+
+def describe(case, k, sub=None):
+    st = case['x']['steps'][k]
+    if sub is None:
+        return f'step {k} ' + describe_call(case, st)
+    nd = list(walk_nodes(st))[sub]
+    return f'step {k}, nested call {sub} (pre-order) made by the body of [{describe_call(case, st)}]: ' + describe_call(case, nd)
 
 
 def norm(o):
-    return 'ESC' if o.startswith('ESC') else o
+    return o if o is None else ('ESC' if o.startswith('ESC') else o)
+
+
+def demand(v, o):
+    """what the verdict of the specification demands of the outcome class of the implementation; None: met"""
+    if v == 'accept' and o != 'ok':
+        return f'rejected ({o}) although every value is compatible / conforms'
+    if v in ('tvm', 'tvmInUnion') and o != 'PED:TypeVarMismatch':
+        return f'{o} although values of unrelated classes meet at one TypeVar (PedanticTypeVarMismatchException required)'
+    if v == 'reject' and not o.startswith('PED:'):
+        return f'{o} although a value violates a constraint / bound / does not conform'
+    return None
 
 
 def judge(case, impl, model):
     outs, solo = impl['outs'], impl['solo']
     mo, sp, regs = model['model'], model['spec'], model['regions']
+    steps = case['x']['steps']
+    in_, is_ = impl.get('nested') or [[] for _ in outs], impl.get('nsolo') or [[] for _ in outs]
+    mn, ns, nr = model.get('nested') or [[] for _ in outs], model.get('nspec') or [[] for _ in outs], model.get('nregions') or [[] for _ in outs]
     corr = [norm(o) for o in outs] == mo
     why = ''
     if not corr:
         k = next((k for k, (a, b) in enumerate(zip(outs, mo)) if norm(a) != b), 0)
         why = f'{describe(case, k)}: implementation {outs[k]}, model {mo[k]}'
+    else:
+        for k in range(len(outs)):
+            a, b = [norm(o) for o in in_[k]], mn[k]
+            if a != b:
+                corr = False
+                j = next((j for j, (x, y) in enumerate(zip(a, b)) if x != y), None)
+                why = (f'{describe(case, k, j)}: implementation {in_[k][j]}, model {b[j]} (None: the call was never made)' if j is not None
+                       else f'{describe(case, k)}: journals of the nested calls differ in length ({len(a)} / {len(b)})')
+                break
     fails = []
     for k, (o, v) in enumerate(zip(outs, sp)):
-        bad = None
-        if v == 'accept' and o != 'ok':
-            bad = f'rejected ({o}) although every value is compatible / conforms'
-        elif v in ('tvm', 'tvmInUnion') and o != 'PED:TypeVarMismatch':
-            bad = f'{o} although values of unrelated classes meet at one TypeVar (PedanticTypeVarMismatchException required)'
-        elif v == 'reject' and not o.startswith('PED:'):
-            bad = f'{o} although a value violates a constraint / bound / does not conform'
-        elif solo[k] is not None and solo[k] != o:
-            bad = f'{o} in this history but {solo[k]} when the same call is made alone on a fresh instance'
+        bad = demand(v, o)
+        if not bad and solo[k] is not None and solo[k] != o:
+            bad = (f'{o} in this history but {solo[k]} when the same call is made alone' + (' with an empty body' if steps[k].get('kids') else '')
+                   + ' on a fresh instance')
         if bad:
-            fails.append((k, bad, regs[k]))
+            fails.append((k, None, bad, regs[k]))
+        for j, o2 in enumerate(in_[k]):
+            if o2 is None or j >= len(ns[k]):
+                continue
+            bad = demand(ns[k][j], o2)
+            if not bad and j < len(is_[k]) and is_[k][j] is not None and is_[k][j] != o2:
+                bad = f'{o2} as a nested call but {is_[k][j]} when the same call is made alone (empty body, fresh instance)'
+            if bad:
+                fails.append((k, j, bad, nr[k][j] if j < len(nr[k]) else []))
     pfail, finding = None, None
     if fails:
-        unexplained = [f for f in fails if not f[2]]
-        k, bad, rg = (unexplained or fails)[0]
-        pfail = f'{describe(case, k)}: {bad}'
+        unexplained = [f for f in fails if not f[3]]
+        k, j, bad, rg = (unexplained or fails)[0]
+        pfail = f'{describe(case, k, j)}: {bad}'
         if not unexplained and corr:
             finding = rg[0]
-    steps = case['x']['steps']
-    nontrivial = any(ann_tvs(a) for m in case['c']['steps'] for a, _ in m['checks'])
-    kinds = sorted({case['x']['insts'][st['i']]['cls'] for st in steps})
+
+    def checks_of(m):
+        yield from m['checks']
+        for x in m.get('kids') or []:
+            yield from checks_of(x)
+    nontrivial = any(ann_tvs(a) for m in case['c']['steps'] for a, _ in checks_of(m))
+    kinds = sorted({case['x']['insts'][nd['i']]['cls'] for st in steps for nd in [st] + list(walk_nodes(st))})
+
+    def depth(st):
+        return 1 + max([depth(k) for k in st.get('kids') or []] + [0])
+    dmax = max([depth(st) for st in steps] + [0])
     return {'corr': corr, 'pfail': pfail, 'finding': finding, 'nontrivial': nontrivial,
-            'tag': f"{case['x'].get('origin', '?').split(':')[0]}/{'+'.join(kinds)}/n={min(len(steps), 13)}", 'why': why}
+            'tag': f"{case['x'].get('origin', '?').split(':')[0]}/{'+'.join(kinds)}/n={min(len(steps), 13)}" + (f'/depth={dmax}' if dmax > 1 else ''), 'why': why}
 
 
 def _renamed(sg, vals, tag):
@@ -976,12 +1291,19 @@ def shrink(case, judge_fn):
 
 
 def extra_coverage(results):
-    per = {}
-    n = 0
+    per, nest = {}, {}
+    n = nn = 0
     for (c, i, m, j) in results:
         for k, st in enumerate(c['x']['steps']):
             kind = c['x']['insts'][st['i']]['cls']
             key = f"{kind}/{m['spec'][k]}/{i['outs'][k]}"
             per[key] = per.get(key, 0) + 1
             n += 1
-    return {'steps': n, 'step_histogram(kind/spec/impl)': dict(sorted(per.items(), key=lambda kv: -kv[1]))}
+            for q, nd in enumerate(walk_nodes(st)):
+                o = (i.get('nested') or [[]] * (k + 1))[k]
+                v = (m.get('nspec') or [[]] * (k + 1))[k]
+                key = f"{kind}>{nd['how']}:{c['x']['insts'][nd['i']]['cls']}/{v[q] if q < len(v) else '?'}/{o[q] if q < len(o) else '?'}"
+                nest[key] = nest.get(key, 0) + 1
+                nn += 1
+    return {'steps': n, 'step_histogram(kind/spec/impl)': dict(sorted(per.items(), key=lambda kv: -kv[1])),
+            'nested_calls': nn, 'nested_histogram(outer kind>how:kind/spec/impl)': dict(sorted(nest.items(), key=lambda kv: -kv[1])[:80])}
